@@ -30,6 +30,8 @@ TECHNIQUE = ("static analysis: CFG x staleness monitor for the derived residual 
 HU = "immutable.happiness_upload"
 HZ = "util.happinessutil"
 COPIES = (HZ + ":servers_of_happiness", HU + ":_compute_maximum_graph")
+# re-iterable copies of an adjacency row (NOT iter(): a row is scanned once per residual_network call)
+ROW_COPIES = ("list", "tuple", "sorted", "set", "frozenset")
 
 
 def _nested_subscript(t):
@@ -500,7 +502,8 @@ def run(ctx: Context):
                           "the source row must list every server vertex (%s.keys()); got %s" % (rsm, src(fw, sn[3])))
                 r.site(fw, sv_[0].ast, "server rows")
                 lp = enclosing_for(fw, sv_[0].ast)[-1]
-                r.require(unwrap_view(lp.iter)[1] in (None, "keys") and norm_plain(sv_[3]) == "%s[%s]" % (rsm, norm_plain(lp.target)),
+                r.require(unwrap_view(lp.iter)[1] in (None, "keys")
+                          and norm_plain(unwrap(sv_[3], tails=ROW_COPIES)) == "%s[%s]" % (rsm, norm_plain(lp.target)),
                           fw, fw.loc(sv_[0].ast), "server rows must be appended in numbering order: for k in %s: append(%s[k])" % (rsm, rsm))
                 r.site(fw, shn[0].ast, "share rows")
                 lp2 = enclosing_for(fw, shn[0].ast)[-1]
@@ -580,7 +583,9 @@ def run(ctx: Context):
             if isinstance(edge, ast.Tuple) and len(edge.elts) == 2 and isinstance(edge.elts[1], ast.Name):
                 cur = edge.elts[1].id
                 okp = norm_plain(edge.elts[0]) == "bfs_tree[%s]" % cur or anorm.norm(wnode, edge.elts[0]) == "%s[%s]" % (bt, cur)
-                okp = okp and call_tail(c) == "insert" and norm_plain(c.args[0]) == "0"
+                # the path is consumed as a set of edges (min over it, one update per edge): where the edge is put in
+                # the list does not matter, only that exactly this edge is put there
+                okp = okp and len(c.args) == (2 if call_tail(c) == "insert" else 1) and not c.keywords
                 # walk: cur starts at the sink, moves to its predecessor, stops at 0
                 steps = [n for n in acfg.stmt_nodes() if n.kind == "stmt" and isinstance(n.ast, ast.Assign)
                          and [attr_path(t) for t in n.ast.targets] == [cur]]
@@ -591,7 +596,7 @@ def run(ctx: Context):
             else:
                 okp = False
         r.require(okp, ap, ap.loc(), "the path must be rebuilt from the sink len(%s) - 1 through the BFS predecessors down to "
-                  "vertex 0, as edges (predecessor, vertex) in source-to-sink order" % AG)
+                  "vertex 0, as edges (predecessor, vertex)" % AG)
 
         # ---- residual_network
         rn = idx.func(HU + ":residual_network")
